@@ -644,6 +644,12 @@ impl Tracker {
         if real_keys != model_keys {
             s.viol.push((15, "expiry-set".into(), format!("kept {model_keys:06x?} at T={t}s"), format!("kept {real_keys:06x?}")));
         }
+        // C12's half of the same fact: the tracked set shrinks only through expiry - an address heard less than T ago
+        // must still be tracked (an address kept too long is C15's business alone)
+        let lost: Vec<u32> = model_keys.iter().copied().filter(|k| !real_keys.contains(k)).collect();
+        if !lost.is_empty() {
+            s.viol.push((12, "shrinks-only-through-expiry".into(), format!("{lost:06x?} still tracked (heard less than {t}s ago)"), format!("kept {real_keys:06x?}")));
+        }
         let after_each = canon_each(&s.real, 1, now_abs);
         for (k, a) in &after_each {
             if before_each.get(k) != Some(a) {
@@ -914,6 +920,12 @@ pub fn c12(tier: Tier) -> i32 {
         if !tier.thorough() {
             break;
         }
+    }
+    // the tracked set shrinks only through expiry: accounting letters interleaved with prune, one second per event
+    {
+        let de = if tier.thorough() { 7 } else { 5 };
+        let o = explore(&run, &format!("C12/expiry/d{de}"), tracker(alphabet_c12_expiry(), (35.0, -80.0), 500.0, 1_000_000_000, 12), de);
+        outs.push(("expiry".into(), o));
     }
     let ll = if tier.thorough() { 3000 } else { 1200 };
     let o = lasso(&run, &format!("C12/lasso/p2x{ll}"), tracker(alphabet_c12(), (35.0, -80.0), 500.0, 1_000_000_000, 12), 2, ll);
